@@ -16,10 +16,10 @@ def reconf(timeout=1500, solver="kissat"):
     return h
 
 def t2(kernel, wmax, hmax, timeout=1500, solver="cadical", wmin=1):
-    nm = {1: "im_fill_rand", 2: "bin2", 3: "bin_cascade"}[kernel]
+    nm = {1: "im_fill_rand", 2: "bin2", 3: "bin_cascade", 4: "get_frame"}[kernel]
     return H("loops_%s_w%d-%d_h%d" % (nm, wmin, wmax, hmax), "harness/simcam/tier2.c", repo=[COMP], env=ENV,
              defines=["KERNEL=%d" % kernel, "WMAX=%d" % wmax, "HMAX=%d" % hmax, "WMIN=%d" % wmin], cflags=["-mavx2"],
-             unwind=max(wmax * hmax // 32 + 6, hmax + 2, 12), unwindset={"im_fill_rand.0": wmax * hmax + 12, "main.0": max(wmax - wmin, hmax) + 3, "main.1": max(wmax - wmin, hmax) + 3, "main.2": max(wmax - wmin, hmax) + 3, "one_shape.0": 6}, solver=solver, timeout=timeout, mem_gb=28, est_gb=(18 if kernel != 1 else 1), nobody_ok=[r"__builtin_ia32_"],
+             unwind=max(wmax * hmax // 32 + 6, hmax + 2, 12), unwindset={"im_fill_rand.0": wmax * hmax + 12, "main.0": max(wmax - wmin, hmax) + 3, "main.1": max(wmax - wmin, hmax) + 3, "main.2": max(wmax - wmin, hmax) + 3, "one_shape.0": 6}, solver=solver, timeout=timeout, mem_gb=28, est_gb=(18 if kernel in (2, 3) else (8 if kernel == 4 else 1)), nobody_ok=[r"__builtin_ia32_"],
              what="real %s on an end-anchored arena (buffer = last E bytes of a fixed object, E = extent assumed by tier 1): every load/store inside for all shapes up to %d x %d" % (nm, wmax, hmax),
              bounds=dict(width="1..%d" % wmax, height="1..%d" % hmax))
 
@@ -30,8 +30,8 @@ def harnesses(tier, findings):
     if tier == "probe":
         return [t2(2, 64, 8, 1500, wmin=41), t2(2, 84, 8, 1500, wmin=65), t2(3, 52, 8, 1500, wmin=41), t2(3, 64, 8, 1500, wmin=53)]
     if tier == "quick":
-        return [t1(1), reconf(), t2(1, 16, 4, 600), t2(2, 64, 6, 600), t2(3, 40, 8, 600)]
-    return [t1(1), reconf(3000), t2(1, 32, 8, 3000)] + [t2(2, hi, 8, 3000, wmin=lo) for lo, hi in ((1, 40), (41, 64), (65, 84), (85, 100))] + \
+        return [t1(1), reconf(), t2(1, 16, 4, 600), t2(4, 16, 4, 600), t2(2, 64, 6, 600), t2(3, 40, 8, 600)]
+    return [t1(1), reconf(3000), t2(1, 32, 8, 3000), t2(4, 32, 8, 3000)] + [t2(2, hi, 8, 3000, wmin=lo) for lo, hi in ((1, 40), (41, 64), (65, 84), (85, 100))] + \
            [t2(3, hi, 8, 3000, wmin=lo) for lo, hi in ((1, 28), (29, 40), (41, 52), (53, 64))]
 
 META = dict(
